@@ -18,6 +18,27 @@ for pid in ids:
         "Trusted base: symgo (own SSA symbolic interpreter; sampled paths are cross-checked against the native build on every run), " \
         "x/tools go/ssa v0.50.0, z3 4.8.12 / z3 5.1.0 / cvc5 1.0, the harness reference model under /verif/harness/" + c['pkg'] + ". " \
         "Bounds: " + "; ".join(f"{k}: {v}" for k, v in c.get('bounds', {}).items()) + ". " + note
+    # decision profile of the last quick run (from the evidence file this check wrote): what actually decided the paths
+    technique = "symbolic execution of go/ssa + SMT (z3/cvc5), bounded; native replay of counterexamples"
+    profile = ""
+    try:
+        ev = json.load(open(f'{V}/evidence/{pid}.json'))['coverage']
+        paths = ev['states']; smt_asserts = sum(h['solver_checks'] for h in ev['harnesses']); q = ev['queries']['total']; en = ev['queries'].get('decided_by_enumeration')
+        hs = ev['harnesses']; conc = [h['name'] for h in hs if h['solver_checks'] == 0]
+        profile = (f"Decision profile of the last quick run: {paths} paths, {q} SMT queries"
+                   + (f" plus {en} branch-feasibility queries over <= 8 input bits decided by complete enumeration" if en is not None else "")
+                   + f", {smt_asserts} assertions discharged by SMT as symbolic formulas (all other assertion evaluations were constants on their path)"
+                   + (f"; harnesses in which no assertion stayed symbolic: {', '.join(conc)}" if conc else "") + ". ")
+        if q == 0 and smt_asserts == 0:
+            technique = ("symbolic execution of go/ssa in which every input dimension of the stated bound is forked into concrete alternatives "
+                         "(schedules, choices, small value sets): the engine explores every resulting path exhaustively and no symbolic value "
+                         "reaches a branch or assertion, so no SMT query arises; native replay of counterexamples")
+        elif smt_asserts == 0:
+            technique = ("symbolic execution of go/ssa + SMT (z3/cvc5), bounded: symbolic inputs decide branches (feasibility by SMT), assertions "
+                         "evaluate to constants on every path; native replay of counterexamples")
+    except Exception:
+        pass
+    level_note = level_note.strip() + " " + profile
     out_checks.append({
         "property_id": pid,
         "quick_cmd": f"./bin/symgo check {pid} --tier quick",
@@ -32,7 +53,7 @@ for pid in ids:
             "design_ref": "DESIGN.md §5 " + pid,
         },
         "level_note": level_note.strip(),
-        "technique": "symbolic execution of go/ssa + SMT (z3/cvc5), bounded; native replay of counterexamples",
+        "technique": technique,
     })
 claimed = {c['property_id'] for c in out_checks}
 out_na = []
